@@ -187,7 +187,7 @@ TEXT.update({
         note="Trusted: Lean kernel + 3 standard axioms; mutex/rwmutex/cond/atomic/rendezvous semantics modelled; the order clauses are a step theorem (next expected position), not a separate whole-history corollary.",
         technique="whole-history invariant over a passive observer; Lean 4 proof (three inductive invariants, 7 + 13 + 3 clauses with sums over unbounded subscribers, 27 actions) + decide over regenerated CFG + concurrent trace acceptance"),
     "C07": dict(
-        text="Lean theorems for every reachable state of the same model: no call ever panics with a state-invariant violation (the caster word always equals the number of "
+        text="[round 3] Liveness: a Send that has acquired sendingMu returns along every run weakly fair for its own steps, the rendezvous with subscribers, Wait's pong consumption and the non-spin unsubscribe steps (rank = phase + work subscribers still owe; failed CASes are paid for by the unsubscription that caused them). Lean theorems for every reachable state of the same model: no call ever panics with a state-invariant violation (the caster word always equals the number of "
              "subscribers that still owe a receive-or-remove to the Send in progress, also for unsubscribes that land before the CAS, during the send phase, before ever "
              "receiving, from a cancelled SubscribeContext or a never-run iterator); the subscriber counter is exactly subscriptions minus withdrawals; at quiescence word = 0, no "
              "pong outstanding, no lock held; while any call is pending some step other than the unsubscribe spin is enabled (no deadlock), assuming fewer than MaxInt32 "
